@@ -48,6 +48,8 @@ type stepIn struct {
 	Silent  bool     `json:"silent,omitempty"`  // cut
 	Outcome string   `json:"outcome,omitempty"` // resume: ok conflict refused cut
 	CutAt   int      `json:"cutat,omitempty"`   // resume ok: sever (loudly) on receiving the k-th resent chunk (1-based), 0 = never
+	CloseAt int      `json:"closeat,omitempty"` // resume ok: the application calls Close while the resend loop stands between the k-th and the next resent chunk
+	HoldMs  int      `json:"holdms,omitempty"`  // resume ok: the broker withholds the ack of the first resent chunk for this long (the script goes on afterwards)
 }
 
 type caseIn struct {
@@ -57,6 +59,7 @@ type caseIn struct {
 	Thresh   int      `json:"thresh"`
 	Rev0     [][2]int `json:"rev0"`
 	Steps    []stepIn `json:"steps"`
+	AckTimeoutMs int  `json:"acktimeoutms,omitempty"` // WithUpstreamAckTimeout (0 = the default: none)
 	SliceMode int     `json:"slicemode,omitempty"` // 1 reuse one slice, 2 windows of one array, 3 fresh slices; 0 = derived
 }
 
@@ -91,11 +94,49 @@ func realPolicy(c *caseIn) iscp.FlushPolicy {
 	return cfg.FlushPolicy
 }
 
+// pauseLogger is a log.Logger (public ConnOption) that can stop the library inside its
+// "Resent data point groups" debug message: the resend loop of run(isResume) emits it after each
+// retransmitted chunk has been acknowledged and before the next one is registered.
+type pauseLogger struct {
+	mu      sync.Mutex
+	count   int
+	at      int
+	paused  chan struct{}
+	release chan struct{}
+}
+
+func (l *pauseLogger) Infof(context.Context, string, ...any)  {}
+func (l *pauseLogger) Warnf(context.Context, string, ...any)  {}
+func (l *pauseLogger) Errorf(context.Context, string, ...any) {}
+func (l *pauseLogger) Debugf(_ context.Context, format string, _ ...any) {
+	if !strings.HasPrefix(format, "Resent data point groups") {
+		return
+	}
+	l.mu.Lock()
+	l.count++
+	hit := l.at > 0 && l.count == l.at
+	paused, release := l.paused, l.release
+	l.mu.Unlock()
+	if hit {
+		close(paused)
+		select {
+		case <-release:
+		case <-time.After(3 * wd):
+		}
+	}
+}
+func (l *pauseLogger) arm(k int) {
+	l.mu.Lock()
+	l.count, l.at, l.paused, l.release = 0, k, make(chan struct{}), make(chan struct{})
+	l.mu.Unlock()
+}
+
 type logStorage struct {
 	iscp.VerifSentStorage
 	stored  chan uint32
 	mu      sync.Mutex
 	removed []uint32
+	all     []uint32 // every sequence number ever stored
 	lists   atomic.Int32 // List/Clear calls made by the library (run(isResume))
 }
 
@@ -112,6 +153,9 @@ func (s *logStorage) Clear(ctx context.Context, id uuid.UUID) error {
 
 func (s *logStorage) Store(ctx context.Context, id uuid.UUID, seq uint32, d iscp.DataPointGroups) error {
 	err := s.VerifSentStorage.Store(ctx, id, seq, d)
+	s.mu.Lock()
+	s.all = append(s.all, seq)
+	s.mu.Unlock()
 	select {
 	case s.stored <- seq:
 	default:
@@ -197,6 +241,7 @@ type env struct {
 	resend    map[uint32]bool // seqs expected to be resent in the current incarnation (acknowledged on reception)
 	resendN   int
 	cutAt     int
+	holdResendAck bool
 	resendLog []uint32
 	resumeCh  chan resumeReq
 	resumeIDs []uuid.UUID
@@ -343,7 +388,7 @@ func runCase(c *caseIn, r *rng.R) (res result) {
 				e.resendLog = append(e.resendLog, seq)
 				if e.cutAt > 0 && e.resendN == e.cutAt {
 					sever = true
-				} else {
+				} else if !e.holdResendAck {
 					ack = true
 				}
 			}
@@ -391,10 +436,11 @@ func runCase(c *caseIn, r *rng.R) (res result) {
 		inner = iscp.VerifNewInmemSentStorageNoPayload() // the no-payload class (the default before /repo f1380ca); not generated any more
 	}
 	st := &logStorage{VerifSentStorage: inner, stored: make(chan uint32, 4096)}
+	plog := &pauseLogger{}
 	var conn *iscp.Conn
 	err, blocked := call(func() error {
 		var err error
-		conn, err = iscp.Connect(b.Address, broker.TransportName, iscp.VerifWithSentStorage(st),
+		conn, err = iscp.Connect(b.Address, broker.TransportName, iscp.VerifWithSentStorage(st), iscp.WithConnLogger(plog),
 			iscp.WithConnPingInterval(10*time.Millisecond), iscp.WithConnPingTimeout(40*time.Millisecond))
 		return err
 	})
@@ -417,7 +463,7 @@ func runCase(c *caseIn, r *rng.R) (res result) {
 		defer cancel()
 		var err error
 		up, err = conn.OpenUpstream(ctx, "sess", iscp.WithUpstreamFlushPolicy(pol), iscp.WithUpstreamQoS(qos),
-			iscp.WithUpstreamCloseTimeout(2*time.Second),
+			iscp.WithUpstreamCloseTimeout(2*time.Second), iscp.WithUpstreamAckTimeout(time.Duration(c.AckTimeoutMs)*time.Millisecond),
 			iscp.WithUpstreamClosedEventHandler(iscp.UpstreamClosedEventHandlerFunc(func(ev *iscp.UpstreamClosedEvent) {
 				e.mu.Lock()
 				e.closedEv = append(e.closedEv, ev.Err != nil)
@@ -455,6 +501,38 @@ func runCase(c *caseIn, r *rng.R) (res result) {
 	earlyOps := 0 // API calls made between the last cut and its detection
 	needResume := false
 	var cutStored []int
+	timedOut := map[uint32]bool{} // chunks removed by the CONFIGURED ack timeout on a live connection (by design)
+	// a chunk may leave the sent storage only through an acknowledgement or a configured ack timeout
+	unexpectedRemovals := func() []string {
+		var drops []string
+		e.mu.Lock()
+		for q := range st.removedSet() {
+			if !e.brokerAck[q] && !timedOut[q] {
+				drops = append(drops, fmt.Sprint(q))
+			}
+		}
+		e.mu.Unlock()
+		sort.Strings(drops)
+		return drops
+	}
+	// from the broker's side: every chunk cut so far that it has not acknowledged (and whose ack did not time out)
+	unackedNow := func() []int {
+		st.mu.Lock()
+		all := append([]uint32(nil), st.all...)
+		st.mu.Unlock()
+		var us []int
+		seen := map[uint32]bool{}
+		e.mu.Lock()
+		for _, q := range all {
+			if !seen[q] && !e.brokerAck[q] && !timedOut[q] {
+				seen[q] = true
+				us = append(us, int(q))
+			}
+		}
+		e.mu.Unlock()
+		sort.Ints(us)
+		return us
+	}
 
 	spurious := func() bool { return linkUp && e.gateHits.Load() != expectHits }
 	arrived := func(seq uint32) bool {
@@ -729,6 +807,26 @@ func runCase(c *caseIn, r *rng.R) (res result) {
 			}
 			emit("EApi (Alias "+pairsTerm(op.Aliases)+")", 0)
 			emit("EApi (Results "+resultsTerm(seqs)+")", 0)
+		case "acktimeout":
+			// a configured (small) ack timeout on a LIVE connection: the broker withholds the acks of the outstanding
+			// chunks; the library removes each of them from the storage by design
+			if !linkUp || streamClosed || c.AckTimeoutMs == 0 {
+				continue
+			}
+			drainStored()
+			for _, q := range sortedOutstanding() {
+				q := q
+				if !broker.WaitFor(wd, func() bool {
+					m, _ := st.VerifSentStorage.List(context.Background(), e.streamID)
+					_, still := m[q]
+					return !still
+				}) {
+					return bad(fmt.Sprintf("chunk %d stayed in the sent storage although its ack was withheld for much longer than the configured ack timeout (%d ms)", q, c.AckTimeoutMs))
+				}
+				timedOut[q] = true
+				delete(outstanding, q)
+				emit(fmt.Sprintf("EAckTimeout %d", q), 0)
+			}
 		case "cut":
 			if !linkUp {
 				continue
@@ -775,28 +873,16 @@ func runCase(c *caseIn, r *rng.R) (res result) {
 			outstanding = map[uint32]bool{}
 			// cancellation must not remove anything from the storage (the former cancel race, F2): a chunk
 			// removed although the broker never acknowledged it is a violation by itself
-			var drops []string
-			e.mu.Lock()
-			for q := range st.removedSet() {
-				if !e.brokerAck[q] {
-					drops = append(drops, fmt.Sprint(q))
-				}
-			}
-			e.mu.Unlock()
-			if len(drops) > 0 {
-				sort.Strings(drops)
+			if drops := unexpectedRemovals(); len(drops) > 0 {
 				res.sig = "F2:unacknowledged-chunk-removed-at-cancellation"
-				return bad(fmt.Sprintf("chunk(s) %v were removed from the sent storage when the run was cancelled although the broker never acknowledged them: they will not be retransmitted", drops))
+				return bad(fmt.Sprintf("chunk(s) %v were removed from the sent storage although the broker never acknowledged them (no ack timeout configured for them): they will not be retransmitted", drops))
 			}
 			emit("EDetect", 0)
-			// unacknowledged at the disconnect: stored when the link died, or cut before the client noticed
+			// unacknowledged at the disconnect, from the broker's side: every chunk cut so far (also between
+			// the cut and its detection) that the broker has not acknowledged
 			var us []string
-			seen := map[int]bool{}
-			for _, k := range append(append([]int(nil), cutStored...), listStored()...) {
-				if !seen[k] {
-					seen[k] = true
-					us = append(us, fmt.Sprint(k))
-				}
+			for _, k := range unackedNow() {
+				us = append(us, fmt.Sprint(k))
 			}
 			cutStored = nil
 			unackedT = append(unackedT, fmt.Sprintf("(%d,%s)", inc, coqfmt.List(us)))
@@ -893,6 +979,7 @@ func runCase(c *caseIn, r *rng.R) (res result) {
 				alias := e.alias
 				e.resend = map[uint32]bool{}
 				e.resendN, e.cutAt, e.resendLog = 0, op.CutAt, nil
+				e.holdResendAck = op.HoldMs > 0
 				stored := listStored()
 				if c.Reliable {
 					for _, q := range stored {
@@ -903,6 +990,11 @@ func runCase(c *caseIn, r *rng.R) (res result) {
 				e.mu.Unlock()
 				needResume = false
 				lists0 := st.lists.Load()
+				closeAt := 0
+				if op.CloseAt > 0 && op.CloseAt < nexp {
+					closeAt = op.CloseAt
+					plog.arm(closeAt)
+				}
 				rq.s.Send(&message.UpstreamResumeResponse{RequestID: rq.msg.RequestID, AssignedStreamIDAlias: alias, ResultCode: message.ResultCodeSucceeded})
 				emit("EResume ROk", 0)
 				// the new run lists (reliable) or clears (otherwise) the stream's stored chunks first
@@ -911,6 +1003,80 @@ func runCase(c *caseIn, r *rng.R) (res result) {
 				}
 				if msg := settlePending(); msg != "" {
 					return bad(msg)
+				}
+				if op.HoldMs > 0 && nexp > 0 {
+					// the broker receives the first resent chunk and withholds its ack: with no ack timeout configured the
+					// resend loop waits, and the chunk stays stored however long that takes
+					if !broker.WaitFor(wd, func() bool { e.mu.Lock(); defer e.mu.Unlock(); return len(e.resendLog) >= 1 }) {
+						return bad(fmt.Sprintf("after a successful resume none of the %d stored chunks %v was transmitted again within the watchdog", nexp, stored))
+					}
+					e.mu.Lock()
+					q := e.resendLog[0]
+					e.mu.Unlock()
+					res.retrans++
+					emit(fmt.Sprintf("EResend %d", q), 0)
+					time.Sleep(time.Duration(op.HoldMs) * time.Millisecond)
+					e.mu.Lock()
+					e.holdResendAck = false
+					e.mu.Unlock()
+					if c.AckTimeoutMs > 0 && op.HoldMs > 3*c.AckTimeoutMs {
+						// a configured ack timeout removes the chunk by design
+						if broker.WaitFor(wd/4, func() bool {
+							m, _ := st.VerifSentStorage.List(context.Background(), e.streamID)
+							_, still := m[q]
+							return !still
+						}) {
+							timedOut[q] = true
+							emit(fmt.Sprintf("EAckTimeout %d", q), 0)
+						}
+					}
+					drainStored()
+					continue
+				}
+				if closeAt > 0 {
+					// Close during the resend phase: the resend loop is stopped between the closeAt-th and the next resent chunk
+					select {
+					case <-plog.paused:
+					case <-time.After(wd):
+						return bad(fmt.Sprintf("the resend loop did not report its chunk number %d within the watchdog (stored %v)", closeAt, stored))
+					}
+					e.mu.Lock()
+					log1 := append([]uint32(nil), e.resendLog...)
+					e.mu.Unlock()
+					for _, q := range log1 {
+						emit(fmt.Sprintf("EResend %d", q), 0)
+						emit("EApi (Results "+resultsTerm([]uint32{q})+")", 0)
+					}
+					closeDone := make(chan error, 1)
+					go func() {
+						ctx, cancel := context.WithTimeout(context.Background(), wd)
+						defer cancel()
+						closeDone <- up.Close(ctx)
+					}()
+					emit("EApi Close", 0)
+					time.Sleep(30 * time.Millisecond) // Close flushes and evaluates its wait condition while the loop stands in the gap
+					close(plog.release)
+					var cerr error
+					select {
+					case cerr = <-closeDone:
+					case <-time.After(2 * wd):
+						return bad("Upstream.Close issued during the resend phase did not return within the watchdog although every resent chunk is acknowledged on reception")
+					}
+					broker.WaitFor(300*time.Millisecond, func() bool { e.mu.Lock(); defer e.mu.Unlock(); return len(e.resendLog) >= nexp })
+					e.mu.Lock()
+					log2 := append([]uint32(nil), e.resendLog...)
+					e.mu.Unlock()
+					res.retrans += len(log2)
+					if cerr == nil && len(log2) < nexp {
+						return bad(fmt.Sprintf("Close issued during the resend phase returned nil after only %v of the %d stored chunks %v had been transmitted again: the others stay in the sent storage %v and are never retransmitted", log2, nexp, stored, listStored()))
+					}
+					for _, q := range log2[len(log1):] {
+						emit(fmt.Sprintf("EResend %d", q), 0)
+						emit("EApi (Results "+resultsTerm([]uint32{q})+")", 0)
+					}
+					streamClosed = true
+					emit("ECloseEnd", retOf(cerr))
+					continue
 				}
 				// resend phase: every stored chunk is transmitted again, one after the other, each acknowledged on reception
 				want := nexp
@@ -1001,6 +1167,9 @@ func runCase(c *caseIn, r *rng.R) (res result) {
 		}
 	}
 	time.Sleep(2 * time.Millisecond)
+	if drops := unexpectedRemovals(); len(drops) > 0 {
+		return bad(fmt.Sprintf("chunk(s) %v were removed from the sent storage although the broker never acknowledged them (no ack timeout configured for them)", drops))
+	}
 	// ---- final observables: everything the broker and the storage have seen is FROZEN here, before
 	// the closedness probe, so that nothing the harness does afterwards can enter the observation
 	final := e.snapshot(up)
@@ -1407,6 +1576,54 @@ func main() {
 		}
 		// the default storage on the simplest retransmission (finding F1)
 		// (the library default is exercised by probeLibraryDefault without any injection; since the F1 fix it keeps payloads)
+		// --- Close during the resend phase: n chunks unacknowledged at the cut, the application calls Close while
+		// the resend loop stands between the k-th and the (k+1)-th resent chunk (a pausing logger pins the gap)
+		pairs := func(n int) []stepIn {
+			var st []stepIn
+			for i := 0; i < n; i++ {
+				st = append(st, wf(1+i%3, 2+i, 1)...)
+			}
+			return st
+		}
+		outageOK := func(resume stepIn) []stepIn {
+			return []stepIn{{Op: "cut"}, {Op: "detect"}, {Op: "redial"}, resume}
+		}
+		maxN := 3
+		if *tier == "thorough" {
+			maxN = 5
+		}
+		for n := 2; n <= maxN; n++ {
+			for k := 1; k < n; k++ {
+				c := &caseIn{Keep: true, Reliable: true, Policy: "none", SliceMode: 1 + (n+k)%3}
+				c.Steps = append(pairs(n), outageOK(stepIn{Op: "resume", Outcome: "ok", CloseAt: k})...)
+				add(c, "close-during-resend")
+			}
+		}
+		// --- slow: the ack of a retransmitted chunk is withheld for longer than any default the library might
+		// apply (1.3 s; no ack timeout configured), then a second failure: the chunk must be retransmitted again
+		nslow := 1
+		if *tier == "thorough" {
+			nslow = 4
+		}
+		for i := 0; i < nslow; i++ {
+			c := &caseIn{Keep: true, Reliable: true, Policy: "none", SliceMode: 1 + i%3}
+			c.Steps = append(pairs(1+i%2), outageOK(stepIn{Op: "resume", Outcome: "ok", HoldMs: 1300 + 200*i})...)
+			c.Steps = append(c.Steps, outageOK(stepIn{Op: "resume", Outcome: "ok"})...)
+			c.Steps = append(c.Steps, wf(2, 3)...)
+			c.Steps = append(c.Steps, stepIn{Op: "close"})
+			add(c, "slow-withheld-ack-then-second-failure")
+		}
+		// --- a CONFIGURED ack timeout on a live connection removes the chunk by design (model: EAckTimeout)
+		for i := 0; i < 2; i++ {
+			c := &caseIn{Keep: true, Reliable: true, Policy: "none", AckTimeoutMs: 150, SliceMode: 1 + i}
+			c.Steps = append(pairs(2), stepIn{Op: "acktimeout"})
+			if i == 1 {
+				c.Steps = append(c.Steps, outageOK(stepIn{Op: "resume", Outcome: "ok"})...)
+			}
+			c.Steps = append(c.Steps, wf(1, 2)...)
+			c.Steps = append(c.Steps, stepIn{Op: "close"})
+			add(c, "configured-ack-timeout")
+		}
 		for i := 0; i < nrand; i++ {
 			add(genCase(r.Fork()), "random")
 		}
@@ -1482,7 +1699,7 @@ func main() {
 		}
 		w.Add(cs)
 	}
-	rule := "exhaustive: every cut position (before/after each of n write+flush pairs) x every subset of the chunks in flight acknowledged before the cut (out of order included) x loud/silent death x producer slice discipline (one reused slice / windows of one array / fresh), resume ok, one more write, close; random: 2-5 pairs, cut anywhere, writes between the cut and its detection (chunk lost / final flush at cancellation), writes issued while resuming, resume outcomes ok / conflict(s)-then-ok / refused / exchange cut, a second outage (during the resend phase after the k-th resent chunk, or later), policies none/size/immediate, payload-keeping and default storage, 10% unreliable. non-trivial = an outage with >=1 stored unacknowledged chunk and a write accepted after it, or >=1 retransmitted chunk; distinct = distinct Coq case terms"
+	rule := "Close during the resend phase (n=2..3 unacknowledged chunks, Close issued between the k-th and the next resent chunk, pinned by a pausing logger); one slow case (ack of a retransmitted chunk withheld 1.3 s, second failure, must be retransmitted again); a configured 150 ms ack timeout on a live connection (removal by design = EAckTimeout); exhaustive: every cut position (before/after each of n write+flush pairs) x every subset of the chunks in flight acknowledged before the cut (out of order included) x loud/silent death x producer slice discipline (one reused slice / windows of one array / fresh), resume ok, one more write, close; random: 2-5 pairs, cut anywhere, writes between the cut and its detection (chunk lost / final flush at cancellation), writes issued while resuming, resume outcomes ok / conflict(s)-then-ok / refused / exchange cut, a second outage (during the resend phase after the k-th resent chunk, or later), policies none/size/immediate, payload-keeping and default storage, 10% unreliable. non-trivial = an outage with >=1 stored unacknowledged chunk and a write accepted after it, or >=1 retransmitted chunk; distinct = distinct Coq case terms"
 	if err := w.Flush(*seed, *tier, rule, false, map[string]interface{}{"timing_discards": discards}); err != nil {
 		fmt.Fprintln(os.Stderr, err)
 		os.Exit(2)
